@@ -220,7 +220,7 @@ func (r *Rig) Metric(name string) float64 {
 	return 0
 }
 
-// HistCount reads the sample count of a histogram of the dispatcher's registry.
+// HistCount reads the sample count of a histogram or summary of the dispatcher's registry.
 func (r *Rig) HistCount(name string) uint64 {
 	mfs, err := r.Reg.Gather()
 	if err != nil {
@@ -235,9 +235,17 @@ func (r *Rig) HistCount(name string) uint64 {
 			if m.Histogram != nil {
 				n += m.Histogram.GetSampleCount()
 			}
+			if m.Summary != nil {
+				n += m.Summary.GetSampleCount()
+			}
 		}
 	}
 	return n
+}
+
+// Processed is the number of completed routeAlert calls (sample count of the dispatcher's processing-duration summary).
+func (r *Rig) Processed() uint64 {
+	return r.HistCount("alertmanager_dispatcher_alert_processing_duration_seconds")
 }
 
 // GroupView is what Dispatcher.Groups shows for one aggregation group.
